@@ -45,6 +45,11 @@ CHECKS = {
    technique="explicit-state BFS over provider-status histories of two interleaved sequences through the real retry remedy (policy mode) and a real Stream with the Retry processor (flows mode), harness plays the client protocol",
    text="24 configurations (policy|flows x attempts 1-3 x cool-down 0-1 x multiplier 1-2); every history up to depth attempts+5 of provider statuses for two interleaved sequences plus clock steps (incl. beyond the state TTL in policy mode). Per logical call: retry instructions <= attempts, failure only after the attempts are used, out-of-condition statuses never retried, a call after a finished one starts afresh, sequences do not influence each other (reference is per sequence).",
    note="flows-mode retry condition realised by a Filter processor; flows alphabet has one in- and one out-of-condition status; one known finding (counter kept after a successful retry in flows mode)"),
+
+ "C12": dict(level="model_checking", engine="seqx-bfs+schedx", design="§3 C12",
+   technique="explicit-state BFS over request/response/clock histories of the real caching and response-based-throttling remedies (real MemoryCache with sleeper goroutines, virtual time); schedule exploration of concurrent stores and read-vs-expiry",
+   text="For the caching remedy (size limit: two entries fit / all fit) and the throttling remedy (relative / absolute retry-after) every history up to depth 6 (7 thorough) over three keys differing in method / selected path parameter and clock steps of TTL-1ns, 1ns, 1s runs on the real plugins. Every answer from memory must equal a response shown earlier for the same key within its lifetime, a replayed relative retry-after must be reduced by exactly the elapsed time, the cache's actual content never exceeds the configured size; schedules (<=2 preemptions) cover two concurrent stores with one slot left and a reader racing the expiry sleeper.",
+   note="safety only (misses are legal; hit counts in evidence); boundary instant t = s+ttl left open; 1 microsecond slack for absolute epoch values; state key = cache dump + live candidates + sub-second phase"),
 }
 NA_REASON = "check not built yet in this round (work in progress; planned per DESIGN.md §3)"
 def main():
